@@ -3,6 +3,7 @@ package props
 import (
 	"context"
 	"fmt"
+	lisp "github.com/jig/lisp"
 	"runtime"
 	"runtime/debug"
 	"strings"
@@ -65,7 +66,10 @@ func (s c08shape) program(n int, nonTail bool) string { return s.programVia(n, n
 // defn-style macro, so their (fn ...) forms are built by quasiquote and carry no source position;
 // route 2: as route 0, but the whole program is handed over as an AST without any source position
 // (as built from Go).
-var c08Routes = []string{"fn forms written in the text", "functions defined through a defn-style macro", "program given as an AST without source positions"}
+// route 3: every function is defined in a module of its own (each def read under another module name);
+// route 4: the recursive call form itself is built by a user macro, nested inside its expansion.
+var c08Routes = []string{"fn forms written in the text", "functions defined through a defn-style macro", "program given as an AST without source positions",
+	"every function defined in a module of its own", "recursive call built by a user macro inside its expansion"}
 
 func (s c08shape) programVia(n int, nonTail bool, route int) string {
 	var sb strings.Builder
@@ -73,8 +77,14 @@ func (s c08shape) programVia(n int, nonTail bool, route int) string {
 	if route == 1 {
 		sb.WriteString("(defmacro defn0 (fn [name params & body] `(def ~name (fn ~params ~@body)))) ")
 	}
+	if route == 4 {
+		sb.WriteString("(defmacro callm (fn [f & args] `(do 1 (~f ~@args)))) ")
+	}
 	for i := 0; i < s.funcs; i++ {
 		callee := fmt.Sprintf("(f%d (- n 1))", (i+1)%s.funcs)
+		if route == 4 {
+			callee = fmt.Sprintf("(callm f%d (- n 1))", (i+1)%s.funcs)
+		}
 		if nonTail {
 			callee = "(+ 0 " + callee + ")"
 		}
@@ -128,21 +138,36 @@ func init() {
 			if route == 2 {
 				ast = model.ToImpl(model.FromImpl(ast)) // the same program, no source positions
 			}
+			if route == 3 {
+				// the forms of the (do ..) program, each read under a module name of its own
+				var err error
+				var p *lx.Panic
+				for k, f := range ast.(types.List).Val[1:] {
+					one, rerr := lisp.READ(lisp.PRINT(f), types.NewCursorFile(fmt.Sprintf("module-%d", k)), nil)
+					if rerr != nil {
+						return nil, rerr, nil
+					}
+					if _, err, p = lx.Eval(context.Background(), one, scope); err != nil || p != nil {
+						break
+					}
+				}
+				return append([]int{}, depths...), err, p
+			}
 			_, err, p := lx.Eval(context.Background(), ast, scope)
 			return append([]int{}, depths...), err, p
 		}
 		run := func(text string) ([]int, error, *lx.Panic) { return runVia(text, 0) }
 		fam := &vf.Family{
 			Name:     "loop-shapes",
-			Bounds:   "every nesting of depth 0..2 (quick) / 0..3 (thorough) of the 10 tail-position constructs (do-last, let-body-last, let with empty / list-form bindings, if-then, if-else, cond clause, and-last, or-last, fn-body-last) around the recursive call x {self, 2-way mutual, 3-way mutual recursion} x 3 definition routes (fn forms written in the text; functions defined through a defn-style macro; whole program as an AST without source positions); iteration counts 3, 5, 50 (host stack depth at every iteration); the plain recursions and every single construct around a self call also run 150 000 iterations to completion (thorough: all shapes of nesting depth <=1, 2 000 000 iterations), thorough: additionally 20000 iterations under a 1 MiB stack limit",
+			Bounds:   "every nesting of depth 0..2 (quick) / 0..3 (thorough) of the 10 tail-position constructs (do-last, let-body-last, let with empty / list-form bindings, if-then, if-else, cond clause, and-last, or-last, fn-body-last) around the recursive call x {self, 2-way mutual, 3-way mutual recursion} x 5 routes (fn forms written in the text; functions defined through a defn-style macro; whole program as an AST without source positions; every function in a module of its own; the recursive call built by a user macro inside its expansion); iteration counts 3, 5, 50 (host stack depth at every iteration); the plain recursions and every single construct around a self call also run 150 000 iterations to completion (thorough: all shapes of nesting depth <=1, 400 000 iterations), thorough: additionally 20000 iterations under a 1 MiB stack limit",
 			Setup:    setup,
-			Timeout:  300e9,
+			Timeout: 1500e9,
 			N:        func(t string) int64 { tier = t; return int64(len(shapesOf())) },
 			Describe: func(i int64) string { s := shapesOf()[i]; return s.names() + ": " + s.program(50, false) },
 			Run: func(i int64, r *vf.Rec) {
 				s := shapesOf()[i]
 				r.NT()
-				for _, rn := range []struct{ route, n int }{{0, 3}, {0, 5}, {0, 50}, {1, 5}, {1, 50}, {2, 5}, {2, 50}} {
+				for _, rn := range []struct{ route, n int }{{0, 3}, {0, 5}, {0, 50}, {1, 5}, {1, 50}, {2, 5}, {2, 50}, {3, 5}, {3, 50}, {4, 5}, {4, 50}} {
 					n := rn.n
 					d, err, p := runVia(s.programVia(n, false, rn.route), rn.route)
 					r.Exec(1)
@@ -178,7 +203,7 @@ func init() {
 				if (tier == "thorough" && len(s.wraps) <= 1) || len(s.wraps) == 0 || (len(s.wraps) == 1 && s.funcs == 1) {
 					long := 150000
 					if tier == "thorough" {
-						long = 2000000
+						long = 400000
 					}
 					text := strings.Replace(s.program(long, false), "(depth!)", "", -1)
 					_, err, p := run(text)
